@@ -42,3 +42,15 @@ Definition run_seq (k : enc_kind) (c : config FN) (l : list (assignment FN))
 Definition run_hpa_spikes c xs us : tree := ser_result ser_matrix (hpa_forward FN c xs us).
 Definition run_f_bern_spikes (steps : nat) dt inps us : tree := ser_matrix (bern_homogeneous FN steps dt inps us).
 Definition run_f_inhomog_spikes dt inps us : tree := ser_matrix (bern_inhomogeneous FN dt inps us).
+
+(* setters including the generator attribute *)
+Definition ser_gstep (r : gstate FN * option Z) : tree :=
+  Nd [ser_option ser_Z (snd r); ser_estate (g_enc FN (fst r)); ser_option ser_Z (g_gen FN (fst r))].
+Definition run_gseq (k : enc_kind) (c : config FN) (gen0 : option Z) (l : list (gassignment FN))
+           (fwd : config FN -> tree) : tree :=
+  match construct FN k c with
+  | Err code => Nd [L 1%Z; L code]
+  | Ok s0 => let r := assign_g_all FN k (mkG FN s0 gen0) l in
+             Nd [L 0%Z; ser_estate s0; ser_list ser_gstep (fst r); fwd (forward_config FN (g_enc FN (snd r)));
+                 ser_option ser_Z (g_gen FN (snd r))]
+  end.
